@@ -323,6 +323,15 @@ class SStr(object):
     def find(self, sub):
         raise Unsupported('SStr.find')
 
+    def index(self, sub):
+        """first position of a one-character string (forks per position)."""
+        s = self._resolved()
+        sub = SStr.of(sub)._resolved()
+        if builtins.len(sub.cells) != 1: raise Unsupported('SStr.index of a longer string')
+        for k, c in enumerate(s.cells):
+            if _truth(cells_equal(c, sub.cells[0])): return k
+        raise ValueError('substring not found')
+
     def partition(self, sep):
         raise Unsupported('SStr.partition')
 
@@ -530,6 +539,21 @@ def natural_length(kind, p, val, r):
     raise Unsupported('format kind %r' % kind)
 
 
+def _exact_int_cells(cx, x, w):
+    """'%<w>d' % x for an integer term x the path condition makes >= 0, as
+    SChar cells that carry the decimal digits themselves (so that names built
+    from numbers can be compared character by character).  Forks on the number
+    of digits.  Only used when the harness sets ctx.exact_int_digits = True."""
+    if cx.solve(x < 0)[0] != 'unsat': return None
+    n = None
+    for cand in range(1, 19):
+        if cx.branch(x < 10 ** cand):
+            n = cand; break
+    if n is None: raise Unsupported('exact digits: integer beyond 10^18')
+    cells = [SChar(48 + (x / (10 ** (n - 1 - k))) % 10) for k in range(n)]
+    return _pad(cells, w, False)
+
+
 def render_number(kind, w, p, val, left=False, maxlen=None):
     """'%<w>.<p><kind>' % val for a symbolic number -> list of cells.
     Forks on whether the rendering fits the field, and on the exact
@@ -540,6 +564,9 @@ def render_number(kind, w, p, val, left=False, maxlen=None):
             raise Unsupported('%d of symbolic real')
         x = lift_int(val)
         r = x
+        if getattr(cx, 'exact_int_digits', False) and not left:
+            cells = _exact_int_cells(cx, x, w)      # opt-in (C17): digit-exact cells
+            if cells is not None: return cells
     else:
         x = lift_real(val)
         r = rounded_value(kind, p, x)
@@ -622,6 +649,8 @@ def _pad(cells, w, left):
 
 def sjoin(sep, items):
     items = list(items)
+    from . import bstr as _b
+    if any(isinstance(i, _b.BStr) for i in items): return _b.join(sep, items)
     if isinstance(sep, str) and all(isinstance(i, str) for i in items):
         return sep.join(items)
     out = []
@@ -704,11 +733,24 @@ def _garbage(want):
 
 def _charstr_read(s, want):
     """float()/int() of a string with symbolic *characters* (no tokens)."""
+    cells = s._resolved().cells
+    if 0 < builtins.len(cells) <= 18:
+        # fast path: every cell is a decimal digit on this path -> positional value
+        codes = [cell_code(c) for c in cells]
+        dig = z3.And(*[z3.And(e >= 48, e <= 57) for e in codes])
+        if sym.ctx().solve(z3.Not(dig))[0] == 'unsat':
+            n = builtins.len(codes)
+            v = z3.Sum(*[(e - 48) * (10 ** (n - 1 - k)) for k, e in enumerate(codes)]) if n > 1 else codes[0] - 48
+            return SInt(v) if want == 'int' else SReal(z3.ToReal(v))
     from . import pyfloat_model
     return pyfloat_model.read_cells(s, want)
 
 
 def sfloat(x=0.0):
+    from .bstr import BStr
+    if isinstance(x, BStr):
+        from . import pyfloat_model
+        return pyfloat_model.read_bstr(x, 'float')
     if isinstance(x, SReal): return x
     if isinstance(x, SInt): return SReal(z3.ToReal(x.e))
     if isinstance(x, SBool): return SReal(z3.If(x.e, z3.RealVal(1), z3.RealVal(0)))
@@ -720,6 +762,10 @@ def sfloat(x=0.0):
 
 
 def sint(x=0, *a):
+    from .bstr import BStr
+    if isinstance(x, BStr):
+        from . import pyfloat_model
+        return pyfloat_model.read_bstr(x, 'int')
     if isinstance(x, SInt): return x
     if isinstance(x, SBool): return SInt(z3.If(x.e, 1, 0))
     if isinstance(x, SReal):
@@ -737,6 +783,8 @@ def sint(x=0, *a):
 
 def sstr(x=''):
     if isinstance(x, SStr): return x
+    from .bstr import BStr
+    if isinstance(x, BStr): return x
     if isinstance(x, SInt):
         return _mk(render_number('d', 0, 0, x))
     if isinstance(x, (SReal, SBool)):
@@ -745,6 +793,35 @@ def sstr(x=''):
 
 
 def slen(x):
+    from .bstr import BStr
+    if isinstance(x, BStr): return x.slen()
     if isinstance(x, SStr):
         return builtins.len(x._resolved().cells)
     return builtins.len(x)
+
+
+class IxStr(str):
+    """A concrete str whose indexing by a symbolic integer yields a symbolic
+    character (an ite-chain over the characters) instead of forking over the
+    values of the index.  Everything else is the builtin str.  (C17: the
+    alphabet argument `chars[k % n]` of mulgrids.int_to_chars.)"""
+    def __getitem__(self, i):
+        if isinstance(i, SInt) and numeral_value(i.e) is None:
+            n = builtins.len(self)
+            inr = z3.And(i.e >= 0, i.e < n)
+            if n == 0 or sym.ctx().solve(z3.Not(inr))[0] != 'unsat':
+                return str.__getitem__(self, i.concretize())
+            # exact piecewise-linear form: one piece per run of consecutive code
+            # points ('a'..'z' is the single piece 97 + i), ite over the pieces
+            codes = [ord(str.__getitem__(self, k)) for k in range(n)]
+            runs = []
+            for k, cd in enumerate(codes):
+                if runs and cd == runs[-1][1] + (k - runs[-1][0]): continue
+                runs.append((k, cd))
+            k0, c0 = runs[-1]
+            e = i.e + (c0 - k0)
+            for r in range(builtins.len(runs) - 2, -1, -1):
+                k0, c0 = runs[r]
+                e = z3.If(i.e < runs[r + 1][0], i.e + (c0 - k0), e)
+            return SStr([SChar(e)])
+        return str.__getitem__(self, i)
